@@ -65,13 +65,23 @@ urls:
 	return y
 }
 
+var c09fValidated = map[string]bool{}
+
 func c09fNew(y string) *RateLimiter {
-	var raw map[string]interface{}
-	if err := yamlUnmarshal(y, &raw); err != nil {
-		panic(err)
+	// validation (expensive) once per distinct YAML; a fresh spec object per instance, because the
+	// filter keeps its limiters inside the spec's URL rules
+	if !c09fValidated[y] {
+		var raw map[string]interface{}
+		if err := yamlUnmarshal(y, &raw); err != nil {
+			panic(err)
+		}
+		if _, err := filters.NewSpec(nil, "p", raw); err != nil {
+			panic(err)
+		}
+		c09fValidated[y] = true
 	}
-	spec, err := filters.NewSpec(nil, "p", raw)
-	if err != nil {
+	spec := kind.DefaultSpec()
+	if err := yamlUnmarshal(y, spec); err != nil {
 		panic(err)
 	}
 	return kind.CreateInstance(spec).(*RateLimiter)
